@@ -323,3 +323,58 @@ Definition retrieve (size : Z) (k : sel_bits) (offset : Z) (data : list Z) : opt
            end
     end
   else None.
+
+(* ------------------------------------------------------------------------------------------------ *)
+(** * GLWEBlindRetriever as a state machine: one object used for a HISTORY of rounds.
+      State = the accumulators (data, num) and the counter, as in the code; [reset] clears every num and the counter and
+      leaves the data words where they are. *)
+Record rstate := mkR { r_acc : accs; r_cnt : Z }.
+(* GLWEBlindRetriever::alloc *)
+Definition r_alloc (size : Z) : rstate := mkR (repeat (0, 0) (Z.to_nat (retr_nacc size))) 0.
+(* fn reset *)
+Definition r_reset (st : rstate) : rstate := mkR (map (fun dn : Z * Z => (fst dn, 0)) (r_acc st)) 0.
+(* pub fn add; None = the capacity assert or a panic of add_core *)
+Definition r_add (k : sel_bits) (offset : Z) (st : rstate) (a : Z) : option rstate :=
+  if r_cnt st <? 2 ^ Z.of_nat (length (r_acc st)) then
+    match add_core k offset 0 a (r_acc st) with
+    | Some acc' => Some (mkR acc' (r_cnt st + 1))
+    | None => None
+    end
+  else None.
+Definition r_adds (k : sel_bits) (offset : Z) (data : list Z) (st : rstate) : option rstate :=
+  fold_left (fun (s : option rstate) a => match s with Some x => r_add k offset x a | None => None end) data (Some st).
+(* pub fn flush: (result, state after) *)
+Definition r_flush (k : sel_bits) (offset : Z) (st : rstate) : option (Z * rstate) :=
+  if r_cnt st =? 0 then Some (0, r_reset st)
+  else match r_acc st with
+       | [] => None
+       | _ :: _ => match flush_loop k offset (r_acc st) with
+                   | Some acc' => Some (fst (last acc' (0, 0)), r_reset (mkR acc' (r_cnt st)))
+                   | None => None
+                   end
+       end.
+(* pub fn retrieve: reset, add every input, flush *)
+Definition r_retrieve (k : sel_bits) (offset : Z) (data : list Z) (st : rstate) : option (Z * rstate) :=
+  match r_adds k offset data (r_reset st) with
+  | Some st' => r_flush k offset st'
+  | None => None
+  end.
+(* a round of a history: kind 0 = retrieve, 1 = add every input then flush, 2 = add every input and abandon the round *)
+Definition r_round (kind : Z) (k : sel_bits) (offset : Z) (data : list Z) (st : rstate) : option (Z * rstate) :=
+  if kind =? 0 then r_retrieve k offset data st
+  else match r_adds k offset data st with
+       | Some st' => if kind =? 1 then r_flush k offset st' else Some (-2, st')
+       | None => None
+       end.
+Fixpoint r_history (rounds : list (Z * sel_bits * Z * list Z)) (st : rstate) : option (list Z * rstate) :=
+  match rounds with
+  | [] => Some ([], st)
+  | (kind, k, offset, data) :: tl =>
+    match r_round kind k offset data st with
+    | Some (res, st') => match r_history tl st' with
+                         | Some (rs, stf) => Some (res :: rs, stf)
+                         | None => None
+                         end
+    | None => None
+    end
+  end.
